@@ -112,8 +112,8 @@ func zzStallCycle(kind int) {
 	if err != nil {
 		return
 	}
-	zzv.Assert(*c.lastSetPwm == l+1, "P2.request_raised_by_one")
-	zzv.Assert(c.minPwmOffset == off+1, "P2.floor_raised")
+	zzv.Assert(*c.lastSetPwm > l, "P2.request_raised")
+	zzv.Assert(c.minPwmOffset > off, "P2.floor_raised")
 	re := e.fan.GetRpmAvg()
 	zzv.Assert(zzv.And(re >= 0, re <= 20000), "P2.average_rearmed_within_ladder")
 }
